@@ -195,6 +195,10 @@ def conserve(ctx, shard, nshards):
             a_txt = G.dt(a, sa, with_time, rep)
             lines = [G.dt(b, s, with_time, rep) for b, s in Bs]
             tagk = "%s:%s%s" % (kind, "".join(us0), ":t" if with_time else "")
+            if kind == "fixed" and with_time and rnd.random() < 0.25 and abs(R.epoch(a, sa)) < 9 * 10 ** 9:
+                # mixed spellings: the reference as seconds since the epoch, the others civil
+                a_txt = "@%d" % R.epoch(a, sa)
+                tagk += ":@"
             try:
                 out, _ = run_lines(ctx.build, "ddiff", [a_txt, "-f", fmt], lines)
             except BatchError as e:
